@@ -225,13 +225,22 @@ def run(cx: Cx):
 
     # ------------------------------------------------------------ clause 3: batch drivers
     mexec = CORE + 'Model.execute'
-    for q in (BATCH + '_run_model_for_batch', BATCH + '_run_model_for_search'):
+    # the drivers are found, not named: every package function outside the scheduler that steps a model
+    steppers = (mexec, CORE + 'SystemManager.execute_systems')
+    drivers = []
+    for k, calls in cx.effects.calls.items():
+        if '#' in k or k == mexec or k.startswith(CORE + 'SystemManager.'):
+            continue
+        if any(any(t.qualname in steppers for t in c.data.get('targets', [])) for c in calls) and k in cx.prog.functions:
+            drivers.append(k)
+    cx.floor('functions that step a model (batch drivers)', len(drivers), 2)
+    for q in sorted(drivers):
         d = cx.fn(q)
         n = 0
         for p in cx.walker.paths(d, WalkOptions(unroll=2)):
             evs = p.events
             for i, e in enumerate(evs):
-                if e.kind == 'call' and any(t.qualname == mexec for t in e.data.get('targets', [])):
+                if e.kind == 'call' and any(t.qualname in steppers for t in e.data.get('targets', [])):
                     n += 1
                     # conditions of the current iteration of the innermost loop
                     j = i
